@@ -476,7 +476,9 @@ class UnionMetaType(StructureMetaType):
                 if field.name is None and isinstance(field.type, StructureMetaType)
                 for name in field.type.fields
             }
-            kwarg_fields = (name if name in cls.lookup else folded[name] for name in kwargs if name in cls.fields)
+            kwarg_fields = (
+                name if name in cls.lookup else folded[name] for name in kwargs if name in cls.lookup or name in folded
+            )
             if (first_field := next(chain(arg_fields, kwarg_fields), None)) is not None:
                 obj._rebuild(first_field)
         elif not args and not kwargs:
